@@ -110,13 +110,14 @@ class Inst:
 
 
 class FuncVal:
-    __slots__ = ("node", "module", "bound", "owner", "name")
+    __slots__ = ("node", "module", "bound", "owner", "name", "closure")
 
-    def __init__(self, node, module, bound=None, owner=None):
+    def __init__(self, node, module, bound=None, owner=None, closure=None):
         self.node = node
         self.module = module
         self.bound = bound
         self.owner = owner
+        self.closure = closure  # the enclosing function's environment (by reference) for a nested def
         self.name = node.name if hasattr(node, "name") else "<lambda>"
 
     def __repr__(self):
@@ -380,6 +381,9 @@ class Interp:
         node = fv.node
         a = node.args
         env = {}
+        if fv.closure is not None:
+            # free variables of a nested def read the enclosing environment as it is at call time; locals of the inner function shadow them
+            env = {k: v for k, v in fv.closure.items() if not k.startswith("__")}
         params = [x.arg for x in a.posonlyargs + a.args]
         pos = list(args)
         if fv.bound is not None:
@@ -582,7 +586,7 @@ class Interp:
         elif isinstance(st, (ast.Global, ast.Nonlocal)):
             raise Undecided(f"global/nonlocal in interpreted code: {unparse(st)}")
         elif isinstance(st, ast.FunctionDef):
-            env[st.name] = FuncVal(st, mod)
+            env[st.name] = FuncVal(st, mod, closure=env)
         else:
             raise Undecided(f"statement {type(st).__name__}: {unparse(st)[:60]}")
 
